@@ -211,8 +211,41 @@ def rand_useless_grammar(rng, boolean=False):
         rules.append([W(), 0, [list(x) for x in rng.choice(shapes)]])
     if rng.random() < 0.4:
         rules.append([W(), 2, [["N", 3], ["N", 4]]])
+    if rng.random() < 0.5:
+        # every DEFINED nonterminal useful, but a rule mentions a nonterminal that has no rule at all
+        rules = [[W(), 0, [["T", 0], ["T", 1 % nT]]], [W(), 0, [["N", 1]]], [W(), 1, [["T", 0], ["N", 0]]],
+                 [W(), rng.choice([0, 1]), [["N", 5], ["T", rng.randrange(nT)]][:: rng.choice([1, -1])]]]
+        if rng.random() < 0.5:
+            rules.append([W(), 1, [["N", 5]]])
     rng.shuffle(rules)
     return {"S": 0, "nT": nT, "rules": rules}
+
+
+def rand_leftcorner_grammar(rng, boolean=True):
+    """a unary cycle through 2-3 nonterminals, members that are left corners of each other through longer rules too,
+    right recursion, and base cases: the left-corner graph is cyclic and is entered at different members"""
+    W = lambda: (True if boolean else fs(rng.choice(WEIGHTS[:5])))
+    k = rng.randint(2, 3)
+    nT = rng.randint(2, 3)
+    t = lambda: ["T", rng.randrange(nT)]
+    rules = [[W(), i, [["N", (i + 1) % k]]] for i in range(k)]
+    if rng.random() < 0.3:
+        rules.pop(rng.randrange(len(rules)))   # sometimes the cycle is broken
+    for _ in range(rng.randint(2, 4)):
+        x, y = rng.randrange(k), rng.randrange(k)
+        shape = rng.random()
+        if shape < 0.35:
+            rules.append([W(), x, [["N", y], t(), t()][: rng.randint(2, 3)]])       # y is a left corner of x
+        elif shape < 0.6:
+            rules.append([W(), x, [t(), ["N", y]]])                                  # right recursion
+        elif shape < 0.8:
+            rules.append([W(), x, [t(), t(), ["N", y]]])
+        else:
+            rules.append([W(), x, [["N", y], ["N", rng.randrange(k)]]])
+    for x in rng.sample(range(k), rng.randint(1, k)):
+        rules.append([W(), x, [t()]])
+    rng.shuffle(rules)
+    return {"S": rng.randrange(k), "nT": nT, "rules": rules}
 
 
 def permute_rename(rng, g):
